@@ -224,6 +224,7 @@ package server
 //@   modifies Lock.locked@lock, Lock.ackCount@lock, Lock.refCount, Lock.manager, Lock.command, Lock.protocol, Lock.data, Lock.isAof, Lock.aofTime, LockManager.currentLock@self, LockManager.refCount, LockManagerLockQueue.*, LockQueue.*, E_LJPserver_Lock, E_Pserver_Lock, E_int32, MH_mapLL16JbyteJPserver_Lock
 
 //@ func (*LockManager).GetLockedLock
+//@   ghost lastLockedLock[ref(self)] = result
 //@   requires self != nil && command != nil && self.currentLock != nil && self.currentLock.command != nil
 //@   ensures C02.owner.sound: implies(result != nil, result.command != nil && result.command.LockId == command.LockId && (result == self.currentLock || result.locked > 0))
 //@   ensures C02.owner.oldest: implies(self.currentLock.command.LockId == command.LockId, result == self.currentLock)
@@ -379,6 +380,12 @@ package server
 //@   ghost valueBefore[ref(self)] = curValue(self)
 //@   assumes command.Rcount == old(command.Rcount) && command.Flag == old(command.Flag) && command.TimeoutFlag == old(command.TimeoutFlag) && command.ExpriedFlag == old(command.ExpriedFlag) && command.Expried == old(command.Expried) && command.Timeout == old(command.Timeout) && command.Count == old(command.Count) && command.LockId == old(command.LockId) && command.LockKey == old(command.LockKey)
 //@   modifies protocol.LockCommand.*, protocol.LockDBState.KeyCount, protocol.LockDBState.SlowKeyCount, LockDB.freeLockManagerHead, LockDB.freeLockManagerTail, LockDB.managerGlockIndex, LockData.*, LockManagerData.isAof, LockManager.currentData, LockManager.fastKeyValue, LockManager.lockKey, LockManager.refCount, Lock.data, PriorityMutex.*, LockDBExecutor.*, LockDBExecutorTask.*, E_Pserver_LockDBExecutor, E_Pserver_LockDBExecutorTask, E_Pserver_LockManager, E_server_FastKeyValue, MH_mapLL16JbyteJPserver_LockManager, MV_mapLL16JbyteJPserver_LockManager, BinaryServerProtocol.*, TextServerProtocol.*, MemWaiterServerProtocol.*, ProxyServerProtocol.*, TransparencyBinaryServerProtocol.*, TransparencyTextServerProtocol.*, Stream.*, StreamWriterBuffer.*, StreamReaderBuffer.*, protocol.TextParser.*
+// C07: every persisted LOCK record of a key that has a value carries the value (a restart that finds only this record, the
+// others having expired or been compacted away, restores the hold with its value)
+//@ func (*LockManager).AofLockData
+//@   requires self != nil && lock != nil
+//@   ensures C07.value.with-lock-record: implies(commandType == protocol.COMMAND_LOCK && old(self.currentData) != nil && (old(lock.data) == nil || isnil(old(lock.data.aofData))), result == old(self.currentData.data))
+//@   modifies LockData.aofData, Lock.data@lock, LockManagerData.isAof
 //@ func (*LockManager).ProcessExecuteLockCommand
 //@   assumes forallref(c, protocol.LockCommand, implies(!fresh(c), c.Rcount == old(c.Rcount) && c.Flag == old(c.Flag) && c.TimeoutFlag == old(c.TimeoutFlag) && c.LockId == old(c.LockId)))
 //@   modifies protocol.LockCommand.*, protocol.LockDBState.KeyCount, protocol.LockDBState.SlowKeyCount, LockDB.freeLockManagerHead, LockDB.freeLockManagerTail, LockDB.managerGlockIndex, LockData.commandDatas, LockManager.fastKeyValue, LockManager.lockKey, LockManager.refCount, Lock.data, PriorityMutex.*, LockDBExecutor.*, LockDBExecutorTask.*, E_Pserver_LockDBExecutor, E_Pserver_LockDBExecutorTask, E_Pserver_LockManager, E_server_FastKeyValue, MH_mapLL16JbyteJPserver_LockManager, MV_mapLL16JbyteJPserver_LockManager, BinaryServerProtocol.*, TextServerProtocol.*, MemWaiterServerProtocol.*, ProxyServerProtocol.*, TransparencyBinaryServerProtocol.*, TransparencyTextServerProtocol.*, Stream.*, StreamWriterBuffer.*, StreamReaderBuffer.*, protocol.TextParser.*
@@ -1188,8 +1195,8 @@ package server
 //@   at call Unlock assert C09.handover.order: implies(arg0 == self.aofGlock && calls(WriteLock) == 1, calls(Lock) == 2)
 //@   at call ReplicationManager.PushLock assert C09.handover.publish: calls(WriteLock) == 1 && calls(Lock) == 2 && calls(Unlock) == 1 && arg2 == aofLock
 //@   requires self != nil && aofLock != nil
-//@   at call WriteLockData assert C07.value.samefile,C08.value.samefile: calls(WriteLock) == 1 && calls(RewriteAofFile) <= ite(old(self.aofFile) == nil, 1, 0)
-//@   at call RewriteAofFile#2 assert C07.value.written,C08.value.written: calls(WriteLock) == 1 && implies(aofLock.AofFlag&0x2000 != 0 && isnil(werr), calls(WriteLockData) == 1)
+//@   at call WriteLockData assert C07.value.samefile,C08.value.samefile,C16.value.samefile: calls(WriteLock) == 1 && calls(RewriteAofFile) <= ite(old(self.aofFile) == nil, 1, 0)
+//@   at call RewriteAofFile#2 assert C07.value.written,C08.value.written,C16.value.written: calls(WriteLock) == 1 && implies(aofLock.AofFlag&0x2000 != 0 && isnil(werr), calls(WriteLockData) == 1)
 //@   modifies all
 // flushing acknowledges waiting requests through the lock engine and rotation rewrites files: both are
 // outside the ordering argument of PushLock and are cut here
@@ -1219,7 +1226,7 @@ package server
 //@ func (*Aof).loadRewriteAofFiles$1
 //@   requires aofLock != nil
 //@   at call HasLock assert C16.rewrite.terms: arg1.CommandType == aofLock.CommandType && arg1.DbId == aofLock.DbId && arg1.LockId == aofLock.LockId && arg1.LockKey == aofLock.LockKey && arg1.ExpriedFlag == aofLock.ExpriedFlag && arg1.Count == aofLock.Count && arg1.Rcount == aofLock.Rcount && arg2 == aofLock.data
-//@   at call HasLock assert C16.rewrite.lifetime: implies(aofLock.CommandTime < 0x10000000000 && db.currentTime >= 0 && db.currentTime < 0x10000000000 && db.currentTime - aofLock.CommandTime <= ite(aofLock.ExpriedFlag&0x0040 != 0, 0xffff * 60, 0xffff), arg1.Expried == restoredLife(aofLock.ExpriedFlag, aofLock.ExpriedTime, db.currentTime - aofLock.CommandTime))
+//@   at call HasLock assert C16.rewrite.lifetime,C07.rewrite.lifetime: implies(aofLock.CommandTime < 0x10000000000 && db.currentTime >= 0 && db.currentTime < 0x10000000000 && db.currentTime - aofLock.CommandTime <= ite(aofLock.ExpriedFlag&0x0040 != 0, 0xffff * 60, 0xffff), arg1.Expried == restoredLife(aofLock.ExpriedFlag, aofLock.ExpriedTime, db.currentTime - aofLock.CommandTime))
 //@   at call AppendLock assert C16.rewrite.kept: calls(HasLock) == 1 && arg1 == aofLock
 //@   at call WriteLockData assert C16.rewrite.value: calls(AppendLock) == 1 && arg1 == aofLock && aofLock.AofFlag&0x2000 != 0
 //@   modifies all
@@ -1234,6 +1241,7 @@ package server
 //@ func (*LockDB).HasLock
 //@   requires self != nil && command != nil
 //@   at call CheckLockedEqual assert C16.haslock.same-holder: arg1 != nil && calls(GetLockedLock) == 1 && arg1 == currentLock && arg2 == command
+//@   ensures C16.haslock.unlock-record: implies(command.CommandType != protocol.COMMAND_LOCK && calls(GetLockedLock) == 1, result == (ghost.lastLockedLock[ref(lockManager)] != 0))
 //@   modifies all
 
 // =====================================================================================================
